@@ -2,6 +2,7 @@
     Proved part (the rest of the claim rests on the correspondence + ASan/UBSan, see DESIGN.md). *)
 From Coq Require Import ZArith List Bool.
 From RecordUpdate Require Import RecordSet.
+From Nice Require Ptcp.PtcpModel Ptcp.PtcpHoare Ptcp.ResizeProofs.
 From Nice Require Import Base.Bytes Ptcp.PtcpModel Ptcp.PtcpProofs Ptcp.ReassemblyProofs Ptcp.FifoBoundProofs.
 Import ListNotations.
 Local Open Scope Z_scope.
@@ -43,3 +44,13 @@ Proof. exact write_offset_bounded. Qed.
 Theorem C10_uncovered_positions_read_zero : forall S fut total n i, 0 <= total -> Forall (consistent S) fut -> (i < n)%nat ->
   coveredb fut (total + Z.of_nat i) = false -> nth i (fut_bytes fut total n) 0 = 0.
 Proof. exact uncovered_reads_zero. Qed.
+
+(** receive-buffer bookkeeping: resize_receive_buffer (reached by the rcv-buf property and by every CONNECT segment's window-scale option, hostile ones
+    included) changes the size the socket computes its window from and the capacity of the receive FIFO together or not at all, and never below the
+    buffered data; the two values are observed equal after every operation of every explored program (summary fields rbuf_len / rbuf_cap) *)
+Theorem C10_resize_keeps_bookkeeping_and_fifo_together : forall n s ev,
+  Nice.Ptcp.PtcpModel.rbuf_len s = Nice.Ptcp.PtcpModel.rb_cap (Nice.Ptcp.PtcpModel.rbuf s) ->
+  Nice.Ptcp.PtcpHoare.wp (Nice.Ptcp.PtcpModel.resize_receive_buffer n) s ev
+    (fun _ s' _ => Nice.Ptcp.PtcpModel.rbuf_len s' = Nice.Ptcp.PtcpModel.rb_cap (Nice.Ptcp.PtcpModel.rbuf s') /\
+                   Nice.Ptcp.PtcpModel.rb_buffered s' <= Nice.Ptcp.PtcpModel.rb_cap (Nice.Ptcp.PtcpModel.rbuf s') \/ s' = s).
+Proof. exact Nice.Ptcp.ResizeProofs.resize_keeps_bookkeeping_and_fifo_together. Qed.
